@@ -18,6 +18,7 @@ package vs
 import (
 	"os"
 	"runtime"
+	"runtime/debug"
 	"time"
 )
 
@@ -161,6 +162,9 @@ func threadMain(s *Sched, t *Thread, f func()) {
 		return
 	}
 	t.pending = nil
+	// a fault (e.g. a read of memory that moss has unmapped) becomes a panic of this thread, which threadExit
+	// records, instead of killing the whole process
+	debug.SetPanicOnFault(true)
 	f()
 }
 
